@@ -999,7 +999,8 @@ class Time(AbstractDateTime):
 
     def __add__(self, other: object) -> 'Time':
         if isinstance(other, DayTimeDuration):
-            dt = self._dt + other.get_timedelta()
+            # only the time-of-day part of the duration matters: the date of the sum is dropped
+            dt = self._dt + DayTimeDuration(other.seconds % 86400).get_timedelta()
         elif isinstance(other, datetime.timedelta):
             dt = self._dt + other
         else:
@@ -1011,7 +1012,7 @@ class Time(AbstractDateTime):
             dt1, dt2 = get_comparable_datetimes(self._dt, other._dt)
             return DayTimeDuration.fromtimedelta(dt1 - dt2)
         elif isinstance(other, DayTimeDuration):
-            dt = self._dt - other.get_timedelta()
+            dt = self._dt - DayTimeDuration(other.seconds % 86400).get_timedelta()
             return Time(dt.hour, dt.minute, dt.second, dt.microsecond, dt.tzinfo)
         elif isinstance(other, datetime.timedelta):
             dt = self._dt - other
